@@ -99,6 +99,13 @@ impl Story {
             // In this case, we only want to batch observe variable changes
             // for the outermost call.
             if self.recursive_continue_count == 1 {
+                // Warnings that an earlier continue left readable for want of an
+                // error handler belong to that continue, not to this one.
+                if self.warnings_left_readable {
+                    self.get_state_mut().reset_warnings();
+                    self.warnings_left_readable = false;
+                }
+
                 self.state.variables_state.start_variable_observation();
             }
         } else if self.async_continue_active && !is_async_time_limited {
@@ -237,8 +244,11 @@ impl Story {
                     self.reset_errors();
                     self.get_state_mut().reset_warnings();
                 }
-                // No error handler: throw for errors, silently discard warnings
+                // No error handler: throw for errors; warnings stay readable with
+                // get_current_warnings() until the next continue begins.
                 None => {
+                    self.warnings_left_readable = self.get_state().has_warning();
+
                     if self.get_state().has_error() {
                         let mut sb = String::new();
                         sb.push_str("Ink had ");
@@ -267,10 +277,9 @@ impl Story {
                         sb.push_str(self.get_state().get_current_errors()[0].as_str());
                         return Err(StoryError::InvalidStoryState(sb));
                     }
-                    // Only warnings and no handler: discard silently (consistent
+                    // Only warnings and no handler: not a failure (consistent
                     // with the C# reference implementation which does not throw
                     // for warnings without a handler).
-                    self.reset_errors();
                 }
             }
         }
